@@ -1,19 +1,19 @@
 #!/bin/sh
 # Developer tool: extra evaluation lane.  usage: eval3_lane.sh <n> <rotation>   (own scratch worktree /tmp/mut_evalL<n> and eval copy /tmp/verif_evalL<n>)
-n=$1; rot=$2; ROOT=${ROOT:-/tmp/mut3}
+n=$1; rot=$2; ROOT=${ROOT:-/tmp/mut3}; RES=${RES:-$ROOT/results}
 export EVAL_WT=/tmp/mut_evalL$n
 [ -d $EVAL_WT ] || git -C /repo worktree add --detach $EVAL_WT main >/dev/null 2>&1
-mkdir -p $ROOT/results
+mkdir -p $RES
 while [ ! -f $ROOT/stop ]; do
   ids=$(cat $ROOT/done.txt | tr ' ' '\n' | awk -v r=$rot '{a[NR]=$0} END{for(i=0;i<NR;i++) print a[(i+r)%NR+1]}')
   for id in $ids; do
     d=$ROOT/$id
     for k in 2 1 3; do
-      if [ -f $d/out/patch$k.diff ] && [ -f $d/out/demo$k.py ] && [ ! -f $ROOT/results/${id}_$k.json ] && [ ! -f $ROOT/results/${id}_$k.json.tmp ]; then
-        touch $ROOT/results/${id}_$k.json.tmp
+      if [ -f $d/out/patch$k.diff ] && [ -f $d/out/demo$k.py ] && [ ! -f $RES/${id}_$k.json ] && [ ! -f $RES/${id}_$k.json.tmp ]; then
+        touch $RES/${id}_$k.json.tmp
         rsync -a --delete --exclude .git --exclude evidence /verif/ /tmp/verif_evalL$n/
         mkdir -p /tmp/verif_evalL$n/evidence
-        python3 /verif/tools/eval_mutant.py $d $k /tmp/verif_evalL$n > $ROOT/results/${id}_$k.json.tmp 2>$ROOT/results/${id}_$k.err && mv $ROOT/results/${id}_$k.json.tmp $ROOT/results/${id}_$k.json
+        python3 /verif/tools/eval_mutant.py $d $k /tmp/verif_evalL$n > $RES/${id}_$k.json.tmp 2>$RES/${id}_$k.err && mv $RES/${id}_$k.json.tmp $RES/${id}_$k.json
       fi
     done
   done
